@@ -282,8 +282,12 @@ def run_case(case, ctx):
     xn = env.to_np(x).astype(np.float64)
     lqn = env.to_np(lq).astype(np.float64)
     if case["bounded"]:
-        if ((xn < lo) | (xn > hi)).any() or not np.isfinite(xn).all():
-            j = int(np.argmax(((xn < lo) | (xn > hi)).any(-1)))
+        # the bounds as the flow holds them (rounded to the requested width; float32(2*pi) > 2*pi)
+        cast = np.float64 if w64 else np.float32
+        lo_s, hi_s = lo.astype(cast).astype(np.float64), hi.astype(cast).astype(np.float64)
+        lo_c, hi_c = np.minimum(lo, lo_s), np.maximum(hi, hi_s)
+        if ((xn < lo_c) | (xn > hi_c)).any() or not np.isfinite(xn).all():
+            j = int(np.argmax(((xn < lo_c) | (xn > hi_c)).any(-1)))
             ctx.fail("draw-outside-bounds", f"draw {xn[j].tolist()} lies outside [{lo.tolist()}, {hi.tolist()}]", case)
     lp = env.to_np(flow.log_prob(x)).astype(np.float64)
     u = (xn - lo) / (hi - lo) if case["bounded"] else np.full_like(xn, 0.5)
